@@ -448,6 +448,47 @@ type c10World struct {
 	opts    *generic.Options
 	pn      *generic.PathNode // PathNode kept across loads (reuse)
 	pnUsed  bool
+	held    []c10Held
+}
+
+// c10Held is a scalar read out of a handle earlier (GetByPath) and kept by the caller: a later
+// SetByPath may use it as the new value of another element ("copy field A to field B", "swap"). It
+// must still denote the value it had when it was read, whatever edits happened in between.
+type c10Held struct {
+	node generic.Node
+	val  *PVal
+	from string
+}
+
+// opHold reads an existing scalar and keeps the returned node for later sets.
+func (c *c10World) opHold(h *c10Handle) bool {
+	w := c.w
+	tg := c10PickTarget(w, h, &c.sw, 1, func(f *PField) bool { return f.K != pkMessage && f.K != pkEnum })
+	if tg == nil || !tg.exists || (tg.kind == tgField && tg.f.Card != cSingle) || len(c.held) >= 4 {
+		return false
+	}
+	fv := tg.fv()
+	var cur *PVal
+	switch tg.kind {
+	case tgField:
+		cur = fv.V
+	case tgElem:
+		cur = fv.L[tg.idx]
+	case tgEntry:
+		cur = fv.MV[fv.findKey(tg.key)]
+	}
+	if cur == nil || cur.isZero() {
+		return false
+	}
+	w.NextOp(fmt.Sprintf("%s.GetByPath %s (kept)", h.name, tg))
+	got := h.v.GetByPath(tg.path()...)
+	if got.Check() != nil {
+		w.Logf("  -> not readable: %v", got.Check())
+		return false // reads are not this property's subject
+	}
+	c.held = append(c.held, c10Held{node: got.Node, val: cur.clone(), from: fmt.Sprintf("%s:%s", h.name, tg)})
+	w.Count("held_values")
+	return true
 }
 
 func (c *c10World) canon(h *c10Handle) []byte {
@@ -714,6 +755,18 @@ func (c *c10World) opSet(h *c10Handle) bool {
 	if v == nil {
 		return false
 	}
+	node, heldFrom := generic.Node{}, ""
+	if strLen < 0 && len(c.held) > 0 && t.Chance(1, 2, "set.useheld") {
+		k := t.Intn(len(c.held), "set.held.which")
+		if c.held[k].val.K == tg.f.K {
+			v, node, heldFrom = c.held[k].val.clone(), c.held[k].node, c.held[k].from
+			facts["value_from_earlier_get"] = "true"
+			w.Count("set_with_held_value")
+		}
+	}
+	if heldFrom == "" {
+		node = c10Node(c.sch, v)
+	}
 	if tg.kind == tgEntry && tg.exists {
 		old := tg.fv().MV[tg.fv().findKey(tg.key)]
 		if len(c10Node(c.sch, old).Raw()) != len(c10Node(c.sch, v).Raw()) {
@@ -737,12 +790,15 @@ func (c *c10World) opSet(h *c10Handle) bool {
 	shape := "set-" + tg.shape()
 	w.Count(fmt.Sprintf("set_depth_%d", len(tg.ancestors)))
 	op := fmt.Sprintf("%s.SetByPath %s = %s", h.name, tg, pShowVal(c.sch, v))
+	if heldFrom != "" {
+		op += " (node read earlier from " + heldFrom + ")"
+	}
 	w.NextOp(op)
 	facts["op"] = shape
 	tg.viaFacts(facts)
 	w.opFacts = facts
 	unguard := c.gcGuard(h, !tg.exists)
-	exist, err := h.v.SetByPath(c10Node(c.sch, v), tg.path()...)
+	exist, err := h.v.SetByPath(node, tg.path()...)
 	unguard()
 	w.opFacts = nil
 	if err != nil && tg.kind != tgField && !tg.exists && len(tg.fv().L) == 0 && len(tg.fv().MK) == 0 {
@@ -1177,7 +1233,7 @@ func runC10(w *W) {
 		h := c.handles[t.Intn(len(c.handles), "step.handle")]
 		ok := false
 		w.opFacts = nil
-		switch k := t.Intn(12, "step.kind"); {
+		switch k := t.Intn(13, "step.kind"); {
 		case k <= 3:
 			ok = c.opSet(h)
 		case k <= 6:
@@ -1196,6 +1252,8 @@ func runC10(w *W) {
 				c.verify("fork", nh, nil)
 				ok = true
 			}
+		case k == 12:
+			ok = c.opHold(h)
 		default:
 			c.dom(h, c.baseFacts(h))
 			ok = true
